@@ -234,8 +234,10 @@ def main(argv=None):
         print("  monitor calls:", dict(sorted(m["monitor_calls"].items())))
     if lm:
         print("  landmarks:", lm)
-    for p in m["problems"]:
-        print("  PROBLEM:", json.dumps(p, default=str)[:3000])
+    for p in m["problems"][:3]:
+        print("  PROBLEM:", json.dumps(p, default=str)[:1500])
+    if len(m["problems"]) > 3:
+        print(f"  ... and {len(m['problems']) - 3} more worker problems")
     for mech, n in sorted(seen_known.items()):
         print(f"KNOWN-FINDING: property={prop} {known_mech[mech]['what']} [mechanism={mech}, seen {n}x]")
     if args.replay:
